@@ -133,13 +133,13 @@ Definition imm (time : Z) (k : call M) : Prop :=
   c_inv k = time /\ c_res k = time /\ start M (c_op k) = inr (c_ret k).
 (* a thread as left by `advance` at time `time` *)
 Definition fresh (time : Z) (t : thread M) : Prop :=
-  match t_cur t with Some (o, l, inv) => inv = time /\ start M o = inl l | None => True end.
+  match t_cur t with Some (o, l, inv) => inv = time /\ start M o = inl l | None => t_todo t = [] end.
 
 Lemma advance_spec tid todo : forall idx time t cs,
   advance M tid todo idx time = (t, cs) -> fresh time t /\ Forall (imm time) cs.
 Proof.
   induction todo as [|o rest IH]; intros idx time t cs H; cbn [advance] in H.
-  - inversion H; subst. split; [exact I|constructor].
+  - inversion H; subst. split; [reflexivity|constructor].
   - destruct (start M o) as [l|r] eqn:Hs.
     + inversion H; subst. split; [cbn; auto|constructor].
     + destruct (advance M tid rest (idx + 1) time) as [t0 cs0] eqn:Ha.
@@ -179,7 +179,7 @@ Qed.
 Definition thr_ok (n : Z) (t : thread M) : Prop :=
   match t_cur t with
   | Some (o, l, inv) => 0 <= inv <= n /\ exists l0, start M o = inl l0
-  | None => True
+  | None => t_todo t = []
   end.
 
 Definition call_ok (n : Z) (k : call M) : Prop :=
@@ -433,3 +433,784 @@ Proof.
   - subst j. rewrite Hi in Hj. inversion Hj; subst. lia.
   - pose proof (ss_nth _ _ HS _ _ _ _ Hj Hi H) as Hlt. unfold res_lt in Hlt. lia.
 Qed.
+
+(* ====================================================================== *)
+(* 4. counter                                                              *)
+(* ====================================================================== *)
+Notation cM := counter_machine.
+
+(* the amount a call adds on the integer path (Inc, Add of an integral value) *)
+Definition int_amount (o : counter_op) : option Z :=
+  match o with
+  | CInc => Some 1
+  | CAdd v => if flt v pzero then None
+              else if feq (of_Z (to_u64_amd64 v)) v then Some (to_u64_amd64 v) else None
+  | CWrite => None
+  end.
+(* the amount a call adds on the float (CAS) path *)
+Definition cas_amount (o : counter_op) : option f64 :=
+  match o with
+  | CAdd v => if flt v pzero then None
+              else if feq (of_Z (to_u64_amd64 v)) v then None else Some v
+  | _ => None
+  end.
+Definition int_amounts (h : list (call cM)) : list Z :=
+  flat_map (fun k : call cM => match int_amount (c_op k) with Some d => [d] | None => [] end) h.
+Definition cas_amounts (h : list (call cM)) : list f64 :=
+  flat_map (fun k : call cM => match cas_amount (c_op k) with Some v => [v] | None => [] end) h.
+
+(* which kind of result each call must have *)
+Definition ret_kind_ok (o : counter_op) (r : counter_ret) : Prop :=
+  match o with
+  | CInc => r = CUnit
+  | CAdd v => r = (if flt v pzero then CPanic else CUnit)
+  | CWrite => exists x, r = CValue x
+  end.
+
+(* the real-time window of a Write: bits loaded at t1 (all float-path calls that returned by t1),
+   integer loaded at t2 (all integer-path calls that returned by t2), inv <= t1 < t2 <= res *)
+Definition write_ok (h : list (call cM)) (w : call cM) : Prop :=
+  forall r, c_ret w = CValue r ->
+  exists t1 t2, c_inv w <= t1 /\ t1 < t2 /\ t2 <= c_res w /\
+    r = fadd (sum_amounts (cas_amounts (upto t1 h))) (of_Z (zsum (int_amounts (upto t2 h)) mod two64)).
+
+Definition c_local_ok (n : Z) (h : list (call cM)) (o : counter_op) (l : counter_pc) (inv : Z) : Prop :=
+  match l with
+  | cAddInt d => int_amount o = Some d
+  | cLoad v => cas_amount o = Some v
+  | cCas _ v => cas_amount o = Some v
+  | cWBits => o = CWrite
+  | cWInt f => o = CWrite /\ exists t1, inv <= t1 /\ t1 < n /\ f = sum_amounts (cas_amounts (upto t1 h))
+  end.
+Definition c_thr_ok (n : Z) (h : list (call cM)) (t : thread cM) : Prop :=
+  match t_cur t with Some (o, l, inv) => c_local_ok n h o l inv | None => True end.
+
+Definition CInv (c : config cM) : Prop :=
+  GI c /\ Forall (c_thr_ok (now c) (hist c)) (thr c) /\
+  valInt (sh c) = zsum (int_amounts (hist c)) mod two64 /\
+  valBits (sh c) = sum_amounts (cas_amounts (hist c)) /\
+  Forall (write_ok (hist c)) (hist c) /\
+  Forall (fun k : call cM => ret_kind_ok (c_op k) (c_ret k)) (hist c).
+
+Lemma int_amounts_app h1 h2 : int_amounts (h1 ++ h2) = int_amounts h1 ++ int_amounts h2.
+Proof. apply flat_map_app. Qed.
+Lemma cas_amounts_app h1 h2 : cas_amounts (h1 ++ h2) = cas_amounts h1 ++ cas_amounts h2.
+Proof. apply flat_map_app. Qed.
+
+Lemma c_start_inr o r : counter_start o = inr r ->
+  r = CPanic /\ (exists v, o = CAdd v /\ flt v pzero = true) /\ int_amount o = None /\ cas_amount o = None.
+Proof.
+  destruct o as [|v|]; cbn [counter_start int_amount cas_amount]; try discriminate.
+  destruct (flt v pzero) eqn:E.
+  - intros H; inversion H. repeat split; eauto.
+  - destruct (feq (of_Z (to_u64_amd64 v)) v); discriminate.
+Qed.
+
+Lemma c_start_inl n h o l inv : counter_start o = inl l -> c_local_ok n h o l inv.
+Proof.
+  destruct o as [|v|]; cbn [counter_start]; intros H.
+  - inversion H; subst. reflexivity.
+  - destruct (flt v pzero) eqn:E; [discriminate|].
+    destruct (feq (of_Z (to_u64_amd64 v)) v) eqn:E2; inversion H; subst;
+      cbn [c_local_ok int_amount cas_amount]; rewrite E, E2; reflexivity.
+  - inversion H; subst. reflexivity.
+Qed.
+
+Lemma int_amount_kind o d : int_amount o = Some d -> cas_amount o = None /\ ret_kind_ok o CUnit.
+Proof.
+  destruct o as [|v|]; cbn [int_amount cas_amount ret_kind_ok]; try discriminate; [auto|].
+  destruct (flt v pzero); [discriminate|]. destruct (feq _ v); [auto|discriminate].
+Qed.
+Lemma cas_amount_kind o v : cas_amount o = Some v -> int_amount o = None /\ ret_kind_ok o CUnit.
+Proof.
+  destruct o as [|w|]; cbn [int_amount cas_amount ret_kind_ok]; try discriminate.
+  destruct (flt w pzero); [discriminate|]. destruct (feq _ w); [discriminate|auto].
+Qed.
+
+Lemma c_imm_amounts time (cs : list (call cM)) : Forall (imm time) cs ->
+  int_amounts cs = [] /\ cas_amounts cs = [] /\
+  Forall (fun k : call cM => c_ret k = CPanic /\ ret_kind_ok (c_op k) (c_ret k)) cs.
+Proof.
+  induction 1 as [|k r (_ & _ & Hk) HF (IH1 & IH2 & IH3)]; [repeat split; constructor|].
+  change (start cM (c_op k)) with (counter_start (c_op k)) in Hk.
+  destruct (c_start_inr _ _ Hk) as (Hr & (v & Hv & Hneg) & Hi & Hc).
+  unfold int_amounts, cas_amounts in *. cbn [flat_map]. rewrite Hi, Hc, IH1, IH2. repeat split.
+  constructor; [|assumption]. split; [assumption|]. rewrite Hv. cbn [ret_kind_ok]. rewrite Hneg. assumption.
+Qed.
+
+Lemma c_step_inl s l s' l' : counter_step s l = Some (s', inl l') ->
+  s' = s /\ ((exists v, l = cLoad v /\ l' = cCas (valBits s) v) \/
+             (exists old v, l = cCas old v /\ l' = cLoad v) \/
+             (l = cWBits /\ l' = cWInt (valBits s))).
+Proof.
+  destruct l as [d|v|old v| |f]; cbn [counter_step]; intros H; try discriminate.
+  - inversion H; subst. split; [reflexivity|]. left. eauto.
+  - destruct (fbits_eq (valBits s) old); inversion H; subst. split; [reflexivity|]. right. left. eauto.
+  - inversion H; subst. split; [reflexivity|]. right. right. auto.
+Qed.
+
+Lemma c_step_inr s l s' r : counter_step s l = Some (s', inr r) ->
+  (exists d, l = cAddInt d /\ s' = mkCS (valBits s) ((valInt s + d) mod two64) /\ r = CUnit) \/
+  (exists v, l = cCas (valBits s) v /\ s' = mkCS (fadd (valBits s) v) (valInt s) /\ r = CUnit) \/
+  (exists f, l = cWInt f /\ s' = s /\ r = CValue (fadd f (of_Z (valInt s)))).
+Proof.
+  destruct l as [d|v|old v| |f]; cbn [counter_step]; intros H; try discriminate.
+  - inversion H; subst. left. eauto.
+  - destruct (fbits_eq (valBits s) old) eqn:E; inversion H; subst.
+    apply fbits_eq_true in E. subst old. right. left. eauto.
+  - inversion H; subst. right. right. eauto.
+Qed.
+
+Lemma c_thr_ok_later n h new (t : thread cM) :
+  Forall (fun k : call cM => c_res k = n + 1) new -> c_thr_ok n h t -> c_thr_ok (n + 1) (h ++ new) t.
+Proof.
+  unfold c_thr_ok. destruct (t_cur t) as [[[o l] inv]|]; [|auto]. intros Hnew.
+  destruct l as [d|v|old v| |f]; cbn [c_local_ok]; try (intros H; exact H).
+  intros (Ho & t1 & H1 & H2 & H3). split; [assumption|]. exists t1. repeat split; try lia.
+  rewrite (upto_app_later _ t1 n) by (try lia; assumption). assumption.
+Qed.
+
+Lemma write_ok_later n h new (w : call cM) :
+  Forall (fun k : call cM => c_res k = n + 1) new -> c_res w <= n -> write_ok h w -> write_ok (h ++ new) w.
+Proof.
+  intros Hnew Hw H r Hr. destruct (H r Hr) as (t1 & t2 & A & B & C & D). exists t1, t2. repeat split; try assumption.
+  rewrite (upto_app_later _ t1 n), (upto_app_later _ t2 n) by (try lia; assumption). assumption.
+Qed.
+
+Lemma CInv_init progs : CInv (init_config cM counter_init progs).
+Proof.
+  destruct (init_fresh cM counter_init progs) as [H1 H2].
+  destruct (c_imm_amounts _ _ H2) as (Hi & Hc & Hp).
+  unfold CInv. split; [apply GI_init|]. rewrite Hi, Hc. repeat split.
+  - eapply Forall_mono; [|exact H1]. intros t. unfold fresh, c_thr_ok.
+    destruct (t_cur t) as [[[o l] inv]|]; [|auto]. intros [_ H]. apply c_start_inl. exact H.
+  - eapply Forall_mono; [|exact Hp]. intros k [Hk _] r Hr. rewrite Hk in Hr. discriminate.
+  - eapply Forall_mono; [|exact Hp]. intros k [_ Hk]. exact Hk.
+Qed.
+
+Lemma CInv_step c tid c' : CInv c -> sched_step cM c tid = Some c' -> CInv c'.
+Proof.
+  intros (HG & HT & HI & HB & HW & HK) Hstep.
+  pose proof (GI_step _ _ _ _ HG Hstep) as HG'.
+  destruct (sched_step_cases _ _ _ _ Hstep) as (t & o & l & inv & s' & nxt & Ht & Hcur & Hs & Hsh & Hnow & Hrest).
+  pose proof (Forall_nth_error _ _ _ _ HT Ht) as Hlo. unfold c_thr_ok in Hlo. rewrite Hcur in Hlo.
+  destruct HG as (Hn & HGT & HGH & _).
+  pose proof (Forall_nth_error _ _ _ _ HGT Ht) as Htk. unfold thr_ok in Htk. rewrite Hcur in Htk. destruct Htk as [Hinv _].
+  assert (HGres : Forall (fun k : call cM => c_res k <= now c) (hist c))
+    by (eapply Forall_mono; [|exact HGH]; intros k (_ & H & _); exact H).
+  change (step cM (sh c) l) with (counter_step (sh c) l) in Hs.
+  unfold CInv. split; [exact HG'|].
+  destruct nxt as [l'|r].
+  - destruct Hrest as [Hh Hth]. rewrite Hh, Hth, Hnow.
+    destruct (c_step_inl _ _ _ _ Hs) as [Hs' Hl]. rewrite Hs' in Hsh. rewrite Hsh.
+    assert (HT1 : Forall (c_thr_ok (now c + 1) (hist c)) (thr c)).
+    { eapply Forall_mono; [|exact HT]. intros x Hx.
+      pose proof (c_thr_ok_later (now c) (hist c) [] x (Forall_nil _) Hx) as Hx'. rewrite app_nil_r in Hx'. exact Hx'. }
+    repeat split; try assumption.
+    apply Forall_set_nth; [assumption|]. unfold c_thr_ok. cbn [t_cur].
+    destruct Hl as [(v & -> & ->)|[(old & v & -> & ->)|(-> & ->)]]; cbn [c_local_ok] in *; try assumption.
+    split; [assumption|]. exists (now c). repeat split; try lia.
+    rewrite upto_all by assumption. assumption.
+  - destruct Hrest as (t' & cs & Ha & Hh & Hth). destruct (advance_spec _ _ _ _ _ _ _ Ha) as [Hf Hcs].
+    destruct (c_imm_amounts _ _ Hcs) as (Hci & Hcc & Hcp).
+    set (k := mkCall tid (t_idx t) o r inv (now c + 1)) in *.
+    assert (Hnew : Forall (fun x : call cM => c_res x = now c + 1) (k :: cs)).
+    { constructor; [reflexivity|]. eapply Forall_mono; [|exact Hcs]. intros x (_ & H & _). exact H. }
+    rewrite Hh, Hth, Hnow, Hsh.
+    assert (HT1 : Forall (c_thr_ok (now c + 1) (hist c ++ k :: cs)) (set_nth (thr c) (Z.to_nat tid) t')).
+    { apply Forall_set_nth.
+      - eapply Forall_mono; [|exact HT]. intros x. apply c_thr_ok_later. assumption.
+      - unfold fresh in Hf. unfold c_thr_ok. destruct (t_cur t') as [[[o' l'] inv']|]; [|auto].
+        destruct Hf as [_ Hf]. apply c_start_inl. exact Hf. }
+    assert (HW1 : Forall (write_ok (hist c ++ k :: cs)) (hist c)).
+    { pose proof Hnew as Hnew'. rewrite Forall_forall in HW, HGres |- *. intros w Hw. apply (write_ok_later (now c)); auto. }
+    assert (HWcs : Forall (write_ok (hist c ++ k :: cs)) cs).
+    { eapply Forall_mono; [|exact Hcp]. intros x [Hx _] q Hq. rewrite Hx in Hq. discriminate. }
+    assert (HKcs : Forall (fun x : call cM => ret_kind_ok (c_op x) (c_ret x)) cs).
+    { eapply Forall_mono; [|exact Hcp]. intros x [_ Hx]. exact Hx. }
+    rewrite int_amounts_app, cas_amounts_app.
+    change (k :: cs) with ([k] ++ cs). rewrite int_amounts_app, cas_amounts_app, Hci, Hcc, !app_nil_r.
+    unfold int_amounts at 2. unfold cas_amounts at 2. cbn [flat_map]. rewrite !app_nil_r. cbn [c_op k].
+    destruct (c_step_inr _ _ _ _ Hs) as [(d & -> & -> & ->)|[(v & -> & -> & ->)|(f & -> & -> & ->)]];
+      cbn [c_local_ok] in Hlo; cbn [valInt valBits].
+    + destruct (int_amount_kind _ _ Hlo) as [Hc0 Hk0]. rewrite Hlo, Hc0, app_nil_r.
+      repeat split.
+      * exact HT1.
+      * rewrite zsum_app. cbn [zsum fold_right]. rewrite HI, Z.add_0_r. apply Zplus_mod_idemp_l.
+      * exact HB.
+      * apply Forall_app; split; [exact HW1|]. constructor; [|exact HWcs]. intros q Hq. discriminate Hq.
+      * apply Forall_app; split; [exact HK|]. constructor; [exact Hk0|exact HKcs].
+    + destruct (cas_amount_kind _ _ Hlo) as [Hi0 Hk0]. rewrite Hlo, Hi0, app_nil_r.
+      repeat split.
+      * exact HT1.
+      * exact HI.
+      * unfold sum_amounts. rewrite fold_left_app. cbn [fold_left]. fold (sum_amounts (cas_amounts (hist c))).
+        rewrite <- HB. reflexivity.
+      * apply Forall_app; split; [exact HW1|]. constructor; [|exact HWcs]. intros q Hq. discriminate Hq.
+      * apply Forall_app; split; [exact HK|]. constructor; [exact Hk0|exact HKcs].
+    + destruct Hlo as (-> & t1 & Ht1 & Ht1' & Hf1). cbn [int_amount cas_amount]. rewrite !app_nil_r.
+      repeat split.
+      * exact HT1.
+      * exact HI.
+      * exact HB.
+      * apply Forall_app; split; [exact HW1|]. constructor; [|exact HWcs].
+        intros q Hq. cbn [c_ret k] in Hq. inversion Hq; subst q. exists t1, (now c). cbn [c_inv c_res k].
+        repeat split; try lia.
+        rewrite (upto_app_later _ t1 (now c)), (upto_app_later _ (now c) (now c)) by (try lia; assumption).
+        rewrite (upto_all _ (now c)) by assumption. rewrite <- HI, <- Hf1. reflexivity.
+      * apply Forall_app; split; [exact HK|]. constructor; [|exact HKcs]. cbn [ret_kind_ok c_op c_ret k]. eauto.
+Qed.
+
+Lemma CInv_reachable progs sched : CInv (run_sched cM (init_config cM counter_init progs) sched).
+Proof. apply run_sched_ind; [intros; eapply CInv_step; eauto|apply CInv_init]. Qed.
+
+(* C1 *)
+Lemma counter_state_invariant_lemma : forall (progs : list (list counter_op)) (sched : list Z),
+  let c := run_sched cM (init_config cM counter_init progs) sched in
+  valInt (sh c) = zsum (int_amounts (hist c)) mod two64 /\
+  valBits (sh c) = sum_amounts (cas_amounts (hist c)) /\
+  0 <= valInt (sh c) < two64.
+Proof.
+  intros progs sched c. destruct (CInv_reachable progs sched) as (_ & _ & HI & HB & _). fold c in HI, HB.
+  repeat split; try assumption; rewrite HI; apply Z.mod_pos_bound; reflexivity.
+Qed.
+
+(* C2 *)
+Lemma counter_negative_add_panics_unchanged_lemma : forall (progs : list (list counter_op)) (sched : list Z),
+  let c := run_sched cM (init_config cM counter_init progs) sched in
+  forall k, In k (hist c) ->
+    (forall v, c_op k = CAdd v -> flt v pzero = true -> c_ret k = CPanic /\ c_inv k = c_res k) /\
+    (c_ret k = CPanic -> exists v, c_op k = CAdd v /\ flt v pzero = true) /\
+    (c_inv k = c_res k <-> c_ret k = CPanic).
+Proof.
+  intros progs sched c k Hk.
+  destruct (CInv_reachable progs sched) as ((_ & _ & HGH & _) & _ & _ & _ & _ & HK). fold c in HGH, HK.
+  rewrite Forall_forall in HGH, HK. specialize (HGH k Hk). specialize (HK k Hk). cbn beta in HK.
+  destruct HGH as (_ & _ & Hd).
+  change (start cM (c_op k)) with (counter_start (c_op k)) in Hd.
+  assert (Hpanic : c_ret k = CPanic -> exists v, c_op k = CAdd v /\ flt v pzero = true).
+  { intros Hr. destruct (c_op k) as [|v|]; cbn [ret_kind_ok] in HK.
+    - congruence.
+    - exists v. split; [reflexivity|]. destruct (flt v pzero); [reflexivity|congruence].
+    - destruct HK as [x Hx]. congruence. }
+  assert (Hneg : forall v, c_op k = CAdd v -> flt v pzero = true -> c_ret k = CPanic /\ c_inv k = c_res k).
+  { intros v Hv Hf. rewrite Hv in HK, Hd. cbn [ret_kind_ok counter_start] in HK, Hd. rewrite Hf in HK, Hd.
+    split; [assumption|]. destruct Hd as [[H _]|(_ & (l0 & H) & _)]; [assumption|discriminate]. }
+  split; [exact Hneg|split; [exact Hpanic|split]].
+  - intros He. destruct Hd as [[_ H]|(H & _)]; [|lia]. apply c_start_inr in H. tauto.
+  - intros Hr. destruct (Hpanic Hr) as (v & Hv & Hf). apply (Hneg v Hv Hf).
+Qed.
+
+(* C3 *)
+Lemma counter_write_interval_lemma : forall (progs : list (list counter_op)) (sched : list Z),
+  let c := run_sched cM (init_config cM counter_init progs) sched in
+  forall w r, In w (hist c) -> c_ret w = CValue r ->
+  c_op w = CWrite /\
+  exists t1 t2, c_inv w <= t1 /\ t1 < t2 /\ t2 <= c_res w /\
+    r = fadd (sum_amounts (cas_amounts (upto t1 (hist c))))
+             (of_Z (zsum (int_amounts (upto t2 (hist c))) mod two64)).
+Proof.
+  intros progs sched c w r Hw Hr.
+  destruct (CInv_reachable progs sched) as (_ & _ & _ & _ & HW & HK). fold c in HW, HK.
+  rewrite Forall_forall in HW, HK. split; [|exact (HW w Hw r Hr)].
+  specialize (HK w Hw). cbn beta in HK. destruct (c_op w) as [|v|]; cbn [ret_kind_ok] in HK; [congruence| |reflexivity].
+  destruct (flt v pzero); congruence.
+Qed.
+
+(* ====================================================================== *)
+(* 5. float monotonicity on non-negative operands                          *)
+(* ====================================================================== *)
+Notation rnd := (round radix2 (SpecFloat.fexp 53 1024) (round_mode mode_NE)).
+Definition Hve64 := fexp_correct 53 1024 Hprec_gt0_64.
+
+(* x >= 0 in Go's order: +-0, positive finite, +Inf; excludes NaN *)
+Definition nn (x : f64) : Prop := fle pzero x = true.
+
+Lemma rnd_le x y : (x <= y)%R -> (rnd x <= rnd y)%R.
+Proof. apply (@round_le radix2 (SpecFloat.fexp 53 1024) Hve64 (round_mode mode_NE) (valid_rnd_round_mode mode_NE)). Qed.
+Lemma rnd_ge_0 x : (0 <= x)%R -> (0 <= rnd x)%R.
+Proof.
+  intros H. apply (@round_ge_generic radix2 (SpecFloat.fexp 53 1024) Hve64 (round_mode mode_NE) (valid_rnd_round_mode mode_NE));
+    [apply generic_format_0|assumption].
+Qed.
+
+Lemma nn_cases x : nn x ->
+  x = pinf \/ (is_fin x = true /\ (0 <= B2R x)%R /\ (Bsign x = true -> B2R x = 0%R)).
+Proof.
+  unfold nn. destruct x as [s|s| |s m e H]; intros Hx.
+  - right. cbn. repeat split; try reflexivity; lra.
+  - destruct s; [discriminate Hx|left; reflexivity].
+  - discriminate Hx.
+  - destruct s; [discriminate Hx|]. right. repeat split; [|discriminate].
+    cbn [B2R cond_Zopp]. apply F2R_ge_0. cbn. lia.
+Qed.
+
+Lemma nn_fin_le a b : nn a -> fle a b = true -> is_fin b = true -> is_fin a = true /\ (B2R a <= B2R b)%R.
+Proof.
+  intros Ha Hab Fb. destruct (nn_cases a Ha) as [->|(Fa & _)].
+  - exfalso. apply fle_iff in Hab. destruct Hab as (_ & _ & Hab). unfold ele in Hab.
+    rewrite (ecls_fin b Fb) in Hab. cbn [ecls pinf] in Hab. lia.
+  - split; [assumption|]. apply (fle_iff_fin a b Fa Fb) in Hab. destruct Hab as (_ & _ & Hab). unfold ele, eval in Hab.
+    rewrite (ecls_fin a Fa), (ecls_fin b Fb) in Hab. destruct Hab as [Hab|(_ & [Hab|Hab])]; try lia. assumption.
+Qed.
+
+Lemma fin_le_fle a b : is_fin a = true -> is_fin b = true -> (B2R a <= B2R b)%R -> fle a b = true.
+Proof.
+  intros Fa Fb H. apply (fle_iff_fin a b Fa Fb).
+  split; [destruct a; try discriminate; reflexivity|]. split; [destruct b; try discriminate; reflexivity|].
+  unfold ele, eval. rewrite (ecls_fin a Fa), (ecls_fin b Fb). right. split; [reflexivity|right; assumption].
+Qed.
+
+Lemma nn_trans a b : nn a -> fle a b = true -> nn b.
+Proof. unfold nn. apply fle_trans. Qed.
+
+Lemma fadd_fin_cases a x : is_fin a = true -> is_fin x = true ->
+  (is_fin (fadd a x) = true /\ B2R (fadd a x) = rnd (B2R a + B2R x) /\
+   (Rabs (rnd (B2R a + B2R x)) < bpow radix2 1024)%R) \/
+  (fadd a x = B754_infinity (Bsign a) /\ Bsign a = Bsign x /\
+   (bpow radix2 1024 <= Rabs (rnd (B2R a + B2R x)))%R).
+Proof.
+  intros Fa Fx. pose proof (Bplus_correct 53 1024 Hprec_gt0_64 Hprec_emax64 mode_NE a x Fa Fx) as H.
+  destruct (Rlt_bool_spec (Rabs (rnd (B2R a + B2R x))) (bpow radix2 1024)) as [Hlt|Hge].
+  - left. destruct H as (H1 & H2 & _). repeat split; assumption.
+  - right. destruct H as [H1 H2]. split; [|split; assumption].
+    unfold fadd. apply B2SF_inj. rewrite H1. reflexivity.
+Qed.
+
+Lemma fadd_fin_nn a x : nn a -> nn x -> is_fin a = true -> is_fin x = true ->
+  (0 <= rnd (B2R a + B2R x))%R /\
+  ((is_fin (fadd a x) = true /\ B2R (fadd a x) = rnd (B2R a + B2R x) /\ (rnd (B2R a + B2R x) < bpow radix2 1024)%R) \/
+   (fadd a x = pinf /\ (bpow radix2 1024 <= rnd (B2R a + B2R x))%R)).
+Proof.
+  intros Na Nx Fa Fx.
+  destruct (nn_cases a Na) as [->|(_ & Ha0 & Has)]; [discriminate Fa|].
+  destruct (nn_cases x Nx) as [->|(_ & Hx0 & Hxs)]; [discriminate Fx|].
+  assert (H0 : (0 <= rnd (B2R a + B2R x))%R) by (apply rnd_ge_0; lra).
+  split; [assumption|].
+  destruct (fadd_fin_cases a x Fa Fx) as [(H1 & H2 & H3)|(H1 & H2 & H3)]; rewrite Rabs_pos_eq in H3 by assumption.
+  - left. repeat split; assumption.
+  - right. split; [|assumption]. destruct (Bsign a) eqn:Es; [|exact H1].
+    exfalso. rewrite (Has eq_refl), (Hxs (eq_sym H2)), Rplus_0_r, round_0 in H3 by apply valid_rnd_round_mode.
+    pose proof (bpow_gt_0 radix2 1024). lra.
+Qed.
+
+Lemma fadd_pinf_l y : nn y -> fadd pinf y = pinf.
+Proof. intros H. destruct (nn_cases y H) as [->|(F & _)]; [reflexivity|]. destruct y; try discriminate F; reflexivity. Qed.
+Lemma fadd_pinf_r b : nn b -> fadd b pinf = pinf.
+Proof. intros H. destruct (nn_cases b H) as [->|(F & _)]; [reflexivity|]. destruct b; try discriminate F; reflexivity. Qed.
+
+Lemma nn_pinf : nn pinf. Proof. reflexivity. Qed.
+Lemma nn_pzero : nn pzero. Proof. reflexivity. Qed.
+
+Lemma nn_fadd a x : nn a -> nn x -> nn (fadd a x).
+Proof.
+  intros Na Nx.
+  destruct (nn_cases a Na) as [->|(Fa & _)]; [rewrite fadd_pinf_l by assumption; exact nn_pinf|].
+  destruct (nn_cases x Nx) as [->|(Fx & _)]; [rewrite fadd_pinf_r by assumption; exact nn_pinf|].
+  destruct (fadd_fin_nn a x Na Nx Fa Fx) as [H0 [(H1 & H2 & _)|(H1 & _)]].
+  - unfold nn. apply fin_le_fle; [reflexivity|assumption|]. rewrite H2. cbn [B2R pzero]. assumption.
+  - rewrite H1. exact nn_pinf.
+Qed.
+
+(* fadd is monotone in both arguments on non-negative operands (overflow to +Inf included) *)
+Lemma fadd_mono_nn a x b y : nn a -> nn x -> fle a b = true -> fle x y = true ->
+  fle (fadd a x) (fadd b y) = true.
+Proof.
+  intros Na Nx Hab Hxy.
+  pose proof (nn_trans _ _ Na Hab) as Nb. pose proof (nn_trans _ _ Nx Hxy) as Ny.
+  pose proof (nn_fadd a x Na Nx) as Nax.
+  assert (Hnan : is_nan (fadd a x) = false) by (apply fle_nonnan in Nax; tauto).
+  destruct (nn_cases b Nb) as [->|(Fb & _)]; [rewrite fadd_pinf_l by assumption; apply fle_pinf; assumption|].
+  destruct (nn_cases y Ny) as [->|(Fy & _)]; [rewrite fadd_pinf_r by assumption; apply fle_pinf; assumption|].
+  destruct (nn_fin_le a b Na Hab Fb) as [Fa Lab]. destruct (nn_fin_le x y Nx Hxy Fy) as [Fx Lxy].
+  pose proof (rnd_le (B2R a + B2R x) (B2R b + B2R y) ltac:(lra)) as Hr.
+  destruct (fadd_fin_nn b y Nb Ny Fb Fy) as [_ [(B1 & B2 & B3)|(B1 & _)]].
+  - destruct (fadd_fin_nn a x Na Nx Fa Fx) as [_ [(A1 & A2 & A3)|(A1 & A3)]].
+    + apply fin_le_fle; try assumption. rewrite A2, B2. assumption.
+    + exfalso. lra.
+  - rewrite B1. apply fle_pinf. assumption.
+Qed.
+
+Lemma fadd_pzero_r_ge s : nn s -> fle s (fadd s pzero) = true.
+Proof.
+  intros Ns. destruct s as [[|]|[|]| |sg m e H]; try reflexivity; try discriminate Ns.
+  assert (E : fadd (B754_finite sg m e H) pzero = B754_finite sg m e H) by reflexivity.
+  rewrite E. apply fle_refl. reflexivity.
+Qed.
+
+Lemma fadd_ge_l s x : nn s -> nn x -> fle s (fadd s x) = true.
+Proof.
+  intros Ns Nx. eapply fle_trans; [apply fadd_pzero_r_ge; assumption|].
+  apply fadd_mono_nn; try assumption; [exact nn_pzero|apply fle_refl; apply fle_nonnan in Ns; tauto].
+Qed.
+
+Lemma fold_fadd_nn l : Forall nn l -> forall s, nn s ->
+  nn (fold_left fadd l s) /\ fle s (fold_left fadd l s) = true.
+Proof.
+  induction 1 as [|x r Hx HF IH]; intros s Ns; cbn [fold_left].
+  - split; [assumption|]. apply fle_refl. apply fle_nonnan in Ns. tauto.
+  - destruct (IH (fadd s x) (nn_fadd _ _ Ns Hx)) as [H1 H2]. split; [assumption|].
+    apply (fle_trans _ (fadd s x)); [apply fadd_ge_l; assumption|assumption].
+Qed.
+
+(* uint64 -> float64 *)
+Lemma of_Z_spec i : 0 <= i < 2 ^ 64 -> is_fin (of_Z i) = true /\ B2R (of_Z i) = rnd (IZR i).
+Proof.
+  intros Hi.
+  pose proof (binary_normalize_correct 53 1024 Hprec_gt0_64 Hprec_emax64 mode_NE i 0 false) as H.
+  cbv zeta in H.
+  assert (E : F2R (Float radix2 i 0) = IZR i) by (unfold F2R; cbn [Fnum Fexp bpow]; ring).
+  rewrite E in H.
+  assert (Hb : (Rabs (rnd (IZR i)) < bpow radix2 1024)%R).
+  { assert (H0 : (0 <= rnd (IZR i))%R) by (apply rnd_ge_0; apply IZR_le; lia).
+    rewrite Rabs_pos_eq by assumption.
+    assert (H64 : (rnd (IZR i) <= bpow radix2 64)%R).
+    { apply (@round_le_generic radix2 (SpecFloat.fexp 53 1024) Hve64 (round_mode mode_NE) (valid_rnd_round_mode mode_NE)).
+      - apply generic_format_bpow. cbv. discriminate.
+      - change (bpow radix2 64) with (IZR (2 ^ 64)). apply IZR_le. lia. }
+    pose proof (bpow_lt radix2 64 1024 ltac:(lia)). lra. }
+  rewrite (Rlt_bool_true _ _ Hb) in H. destruct H as (H1 & H2 & _). split; assumption.
+Qed.
+
+Lemma of_Z_mono i j : 0 <= i -> i <= j -> j < 2 ^ 64 -> fle (of_Z i) (of_Z j) = true.
+Proof.
+  intros H0 Hij Hj. destruct (of_Z_spec i ltac:(lia)) as [F1 R1]. destruct (of_Z_spec j ltac:(lia)) as [F2 R2].
+  apply fin_le_fle; try assumption. rewrite R1, R2. apply rnd_le. apply IZR_le. assumption.
+Qed.
+Lemma of_Z_nn i : 0 <= i < 2 ^ 64 -> nn (of_Z i).
+Proof.
+  intros Hi. destruct (of_Z_spec i Hi) as [F1 R1]. unfold nn. apply fin_le_fle; [reflexivity|assumption|].
+  rewrite R1. cbn [B2R pzero]. apply rnd_ge_0. apply IZR_le. lia.
+Qed.
+
+(* ====================================================================== *)
+(* 6. every call of the programs is accounted for exactly once             *)
+(* ====================================================================== *)
+Section Ops.
+Variable M : machine.
+
+Definition pending_ops (t : thread M) : list (op M) :=
+  match t_cur t with Some (o, _, _) => o :: t_todo t | None => t_todo t end.
+Definition all_ops (c : config M) : list (op M) :=
+  map (@c_op M) (hist c) ++ flat_map pending_ops (thr c).
+
+Lemma advance_ops tid todo : forall idx time t cs,
+  advance M tid todo idx time = (t, cs) -> map (@c_op M) cs ++ pending_ops t = todo.
+Proof.
+  induction todo as [|o rest IH]; intros idx time t cs H; cbn [advance] in H.
+  - inversion H; subst. reflexivity.
+  - destruct (start M o) as [l|r] eqn:Hs.
+    + inversion H; subst. reflexivity.
+    + destruct (advance M tid rest (idx + 1) time) as [t0 cs0] eqn:Ha.
+      inversion H; subst. cbn [map app c_op]. f_equal. eapply IH; eauto.
+Qed.
+
+Lemma set_nth_split {A} (l : list A) : forall n old x, nth_error l n = Some old ->
+  exists l1 l2, l = l1 ++ old :: l2 /\ set_nth l n x = l1 ++ x :: l2.
+Proof.
+  induction l as [|y r IH]; intros n old x H; [destruct n; discriminate|].
+  destruct n as [|n]; cbn [nth_error set_nth] in *.
+  - inversion H; subst. exists [], r. split; reflexivity.
+  - destruct (IH n old x H) as (l1 & l2 & E1 & E2). exists (y :: l1), l2. rewrite E1 at 1. rewrite E2. split; reflexivity.
+Qed.
+
+Lemma ops_init s0 progs : Permutation (all_ops (init_config M s0 progs)) (concat progs).
+Proof.
+  unfold all_ops. rewrite init_thr, init_hist. rewrite <- (init_pairs_snd M progs) at 3.
+  induction (init_pairs M progs) as [|p r IH]; cbn [map concat flat_map app]; [constructor|].
+  destruct (advance M (fst p) (snd p) 0 0) as [t cs] eqn:Ha. cbn [fst snd].
+  rewrite <- (advance_ops _ _ _ _ _ _ Ha). rewrite map_app, <- !app_assoc.
+  apply Permutation_app_head.
+  eapply Permutation_trans; [apply Permutation_app_swap_app|]. apply Permutation_app_head. exact IH.
+Qed.
+
+Lemma ops_step c tid c' : sched_step M c tid = Some c' -> Permutation (all_ops c') (all_ops c).
+Proof.
+  intros Hstep.
+  destruct (sched_step_cases _ _ _ _ Hstep) as (t & o & l & inv & s' & nxt & Ht & Hcur & Hs & Hsh & Hnow & Hrest).
+  unfold all_ops. destruct nxt as [l'|r].
+  - destruct Hrest as [Hh Hth]. rewrite Hh, Hth.
+    destruct (set_nth_split _ _ _ (mkThread M (t_todo t) (Some (o, l', inv)) (t_idx t)) Ht) as (l1 & l2 & E1 & E2).
+    rewrite E2. rewrite E1. rewrite !flat_map_app. cbn [flat_map].
+    assert (Hp : pending_ops (mkThread M (t_todo t) (Some (o, l', inv)) (t_idx t)) = pending_ops t)
+      by (unfold pending_ops; cbn [t_cur t_todo]; rewrite Hcur; reflexivity).
+    rewrite Hp. apply Permutation_refl.
+  - destruct Hrest as (t' & cs & Ha & Hh & Hth). rewrite Hh, Hth.
+    destruct (set_nth_split _ _ _ t' Ht) as (l1 & l2 & E1 & E2).
+    rewrite E2. rewrite E1. rewrite !flat_map_app. cbn [flat_map].
+    assert (Hp : pending_ops t = o :: map (@c_op M) cs ++ pending_ops t')
+      by (unfold pending_ops at 1; rewrite Hcur; rewrite (advance_ops _ _ _ _ _ _ Ha); reflexivity).
+    rewrite Hp. rewrite map_app. cbn [map c_op].
+    set (C := map (@c_op M) cs). set (T' := pending_ops t'). set (L1 := flat_map pending_ops l1).
+    set (L2 := flat_map pending_ops l2). set (H := map (@c_op M) (hist c)).
+    rewrite <- app_assoc. apply Permutation_app_head.
+    replace ((o :: C ++ T') ++ L2) with ((o :: C) ++ T' ++ L2) by (cbn [app]; rewrite <- app_assoc; reflexivity).
+    apply Permutation_app_swap_app.
+Qed.
+
+Lemma ops_reachable s0 progs sched :
+  Permutation (all_ops (run_sched M (init_config M s0 progs) sched)) (concat progs).
+Proof.
+  apply (run_sched_ind M (fun c => Permutation (all_ops c) (concat progs))); [|apply ops_init].
+  intros c tid c' H Hs. eapply Permutation_trans; [eapply ops_step; eassumption|assumption].
+Qed.
+
+Lemma pending_nil n (l : list (thread M)) : Forall (thr_ok n) l ->
+  forallb (fun t => match t_cur t with None => true | Some _ => false end) l = true -> flat_map pending_ops l = [].
+Proof.
+  induction 1 as [|t r Ht HF IH]; cbn [forallb flat_map]; [reflexivity|]. intros Hd.
+  apply andb_prop in Hd. destruct Hd as [Hd1 Hd2]. rewrite (IH Hd2), app_nil_r.
+  unfold thr_ok in Ht. unfold pending_ops. destruct (t_cur t) as [[[o l] inv]|]; [discriminate|assumption].
+Qed.
+
+Lemma all_done_pending (c : config M) : GI c -> all_done M c = true -> flat_map pending_ops (thr c) = [].
+Proof. intros (_ & HT & _) Hd. eapply pending_nil; eassumption. Qed.
+
+(* every call completes exactly once: at quiescence the history is a permutation of the programs *)
+Lemma all_done_hist s0 progs sched : let c := run_sched M (init_config M s0 progs) sched in
+  all_done M c = true -> Permutation (map (@c_op M) (hist c)) (concat progs).
+Proof.
+  intros c Hd. pose proof (ops_reachable s0 progs sched) as H. fold c in H. unfold all_ops in H.
+  rewrite (all_done_pending c (GI_reachable M s0 progs sched) Hd), app_nil_r in H. exact H.
+Qed.
+
+Lemma hist_ops_incl s0 progs sched (P : op M -> Prop) : Forall P (concat progs) ->
+  Forall (fun k => P (c_op k)) (hist (run_sched M (init_config M s0 progs) sched)).
+Proof.
+  intros HP. pose proof (ops_reachable s0 progs sched) as H. apply Permutation_sym in H.
+  pose proof (Permutation_Forall H HP) as HF. unfold all_ops in HF. apply Forall_app in HF. destruct HF as [HF _].
+  rewrite Forall_map in HF. exact HF.
+Qed.
+
+End Ops.
+
+Arguments pending_ops {M}. Arguments all_ops {M}.
+
+(* ====================================================================== *)
+(* 7. counter: monotone Writes, quiescent value                            *)
+(* ====================================================================== *)
+
+(* integer-path amount of a call as a number (0 when the call is not on the integer path) *)
+Definition ia (o : counter_op) : Z := match int_amount o with Some d => d | None => 0 end.
+(* float-path amount of a call as a list *)
+Definition ca (o : counter_op) : list f64 := match cas_amount o with Some v => [v] | None => [] end.
+(* hypothesis on amounts: no NaN *)
+Definition amount_ok (o : counter_op) : Prop := match o with CAdd v => is_nan v = false | _ => True end.
+
+Lemma to_u64_nonneg v : 0 <= to_u64_amd64 v.
+Proof.
+  unfold to_u64_amd64. change (2 ^ 64) with 18446744073709551616. change (2 ^ 63) with 9223372036854775808.
+  destruct v; try lia. cbv zeta. set (t := trunc_Z _).
+  repeat match goal with |- context [if ?b then _ else _] => destruct b eqn:? end; lia.
+Qed.
+
+Lemma ia_nonneg o : 0 <= ia o.
+Proof.
+  unfold ia, int_amount. destruct o as [|v|]; try lia.
+  destruct (flt v pzero); [lia|]. destruct (feq _ v); [apply to_u64_nonneg|lia].
+Qed.
+
+Lemma int_amounts_zsum h : zsum (int_amounts h) = zsum (map (fun k : call cM => ia (c_op k)) h).
+Proof.
+  induction h as [|k r IH]; [reflexivity|]. unfold int_amounts in *. cbn [flat_map map]. rewrite zsum_app, IH.
+  unfold ia, zsum. destruct (int_amount (c_op k)); cbn [fold_right]; lia.
+Qed.
+
+Lemma cas_amounts_ca h : cas_amounts h = flat_map ca (map (@c_op cM) h).
+Proof. induction h as [|k r IH]; [reflexivity|]. unfold cas_amounts in *. cbn [flat_map map]. rewrite IH. reflexivity. Qed.
+
+Lemma zsum_perm l l' : Permutation l l' -> zsum l = zsum l'.
+Proof. unfold zsum. induction 1; cbn [fold_right] in *; lia. Qed.
+
+Lemma zsum_map_nonneg {A} (f : A -> Z) l : (forall x, 0 <= f x) -> 0 <= zsum (map f l).
+Proof. unfold zsum. intros Hf. induction l as [|x r IH]; cbn [map fold_right] in *; [lia|]. specialize (Hf x). lia. Qed.
+
+Lemma int_amounts_nonneg h : 0 <= zsum (int_amounts h).
+Proof. rewrite int_amounts_zsum. apply zsum_map_nonneg. intros x. apply ia_nonneg. Qed.
+
+Lemma int_amounts_filter f h : zsum (int_amounts (filter f h)) <= zsum (int_amounts h).
+Proof.
+  induction h as [|k r IH]; cbn [filter]; [lia|].
+  change (k :: r) with ([k] ++ r). rewrite int_amounts_app, zsum_app. pose proof (int_amounts_nonneg [k]).
+  destruct (f k); [|lia]. change (k :: filter f r) with ([k] ++ filter f r). rewrite int_amounts_app, zsum_app. lia.
+Qed.
+
+(* the integer total of the history never exceeds the integer total of the programs *)
+Lemma hist_int_le_total progs sched :
+  zsum (int_amounts (hist (run_sched cM (init_config cM counter_init progs) sched))) <= zsum (map ia (concat progs)).
+Proof.
+  pose proof (ops_reachable cM counter_init progs sched) as H. set (c := run_sched _ _ _) in *.
+  apply (Permutation_map ia) in H. apply zsum_perm in H. rewrite <- H. unfold all_ops.
+  rewrite map_app, zsum_app, map_map, <- int_amounts_zsum.
+  rewrite <- (Z.add_0_r (zsum (int_amounts (hist c)))) at 1. apply Z.add_le_mono_l.
+  apply zsum_map_nonneg. exact ia_nonneg.
+Qed.
+
+Lemma upto_gt_nil {M} t (r : list (call M)) : Forall (fun x => t < c_res x) r -> upto t r = [].
+Proof.
+  unfold upto. induction 1 as [|x r Hx HF IH]; cbn [filter]; [reflexivity|].
+  destruct (c_res x <=? t) eqn:E; [lia|assumption].
+Qed.
+
+(* in a history sorted by response time, the calls returned by t form a prefix of those returned by t' >= t *)
+Lemma upto_prefix {M} (h : list (call M)) : StronglySorted res_le h -> forall t t', t <= t' ->
+  exists rest, upto t' h = upto t h ++ rest.
+Proof.
+  induction 1 as [|k r HS IH HF]; intros t t' Htt; [exists []; reflexivity|].
+  destruct (c_res k <=? t) eqn:E.
+  - destruct (IH t t' Htt) as [rest Hr]. exists rest. unfold upto in *. cbn [filter]. rewrite E.
+    replace (c_res k <=? t') with true by lia. rewrite Hr. reflexivity.
+  - exists (upto t' (k :: r)). replace (upto t (k :: r)) with (@nil (call M)); [reflexivity|].
+    unfold upto at 1. cbn [filter]. rewrite E. symmetry. apply upto_gt_nil.
+    eapply Forall_mono; [|exact HF]. intros x Hx. unfold res_le in Hx. lia.
+Qed.
+
+Lemma cas_amount_nn o v : amount_ok o -> cas_amount o = Some v -> nn v.
+Proof.
+  destruct o as [|w|]; cbn [amount_ok cas_amount]; try discriminate. intros Hn.
+  destruct (flt w pzero) eqn:E; [discriminate|]. destruct (feq _ w); [discriminate|]. intros H; inversion H; subst v.
+  unfold nn. destruct (fle_total pzero w eq_refl Hn) as [H1|H1]; [assumption|congruence].
+Qed.
+
+Lemma cas_amounts_nn (h : list (call cM)) : Forall (fun k : call cM => amount_ok (c_op k)) h -> Forall nn (cas_amounts h).
+Proof.
+  induction 1 as [|k r Hk HF IH]; [constructor|]. unfold cas_amounts in *. cbn [flat_map].
+  apply Forall_app; split; [|assumption]. destruct (cas_amount (c_op k)) as [v|] eqn:E; [|constructor].
+  constructor; [|constructor]. eapply cas_amount_nn; eassumption.
+Qed.
+
+Lemma Forall_upto {M} (P : call M -> Prop) t h : Forall P h -> Forall P (upto t h).
+Proof. rewrite !Forall_forall. intros H x Hx. apply filter_In in Hx. apply H. tauto. Qed.
+
+(* C4 *)
+Lemma counter_monotone_lemma : forall (progs : list (list counter_op)) (sched : list Z),
+  let c := run_sched cM (init_config cM counter_init progs) sched in
+  Forall amount_ok (concat progs) -> zsum (map ia (concat progs)) < two64 ->
+  forall w1 w2 r1 r2, In w1 (hist c) -> In w2 (hist c) ->
+    c_ret w1 = CValue r1 -> c_ret w2 = CValue r2 -> c_res w1 <= c_inv w2 -> fle r1 r2 = true.
+Proof.
+  intros progs sched c Hok Htot w1 w2 r1 r2 Hw1 Hw2 Hr1 Hr2 Hrt.
+  destruct (CInv_reachable progs sched) as ((_ & _ & _ & HS) & _ & _ & _ & HW & _). fold c in HS, HW.
+  pose proof (hist_int_le_total progs sched) as Hle. fold c in Hle.
+  assert (Hlt : zsum (int_amounts (hist c)) < two64) by (eapply Z.le_lt_trans; [exact Hle|exact Htot]).
+  pose proof (hist_ops_incl cM counter_init progs sched amount_ok Hok) as Hnn. fold c in Hnn.
+  rewrite Forall_forall in HW.
+  destruct (HW w1 Hw1 r1 Hr1) as (t1 & t2 & A1 & A2 & A3 & ->).
+  destruct (HW w2 Hw2 r2 Hr2) as (u1 & u2 & B1 & B2 & B3 & ->).
+  set (h := hist c) in *.
+  destruct (upto_prefix h HS t1 u1 ltac:(lia)) as [rest1 E1].
+  destruct (upto_prefix h HS t2 u2 ltac:(lia)) as [rest2 E2].
+  pose proof (Forall_upto _ u1 h Hnn) as Hnu. rewrite E1 in Hnu. apply Forall_app in Hnu. destruct Hnu as [Hn1 Hn2].
+  apply cas_amounts_nn in Hn1. apply cas_amounts_nn in Hn2.
+  rewrite E1, E2, cas_amounts_app, int_amounts_app, zsum_app.
+  pose proof (int_amounts_filter (fun k : call cM => c_res k <=? u2) h) as Hf. fold (upto u2 h) in Hf.
+  rewrite E2, int_amounts_app, zsum_app in Hf.
+  pose proof (int_amounts_nonneg (upto t2 h)) as P1. pose proof (int_amounts_nonneg rest2) as P2.
+  set (I1 := zsum (int_amounts (upto t2 h))) in *. set (I2 := zsum (int_amounts rest2)) in *.
+  rewrite !Z.mod_small by lia.
+  unfold sum_amounts. rewrite fold_left_app.
+  destruct (fold_fadd_nn _ Hn1 pzero nn_pzero) as [N1 _].
+  set (F1 := fold_left fadd (cas_amounts (upto t1 h)) pzero) in *.
+  destruct (fold_fadd_nn _ Hn2 F1 N1) as [_ L2].
+  unfold two64 in *.
+  apply fadd_mono_nn; [assumption|apply of_Z_nn; lia|assumption|apply of_Z_mono; lia].
+Qed.
+
+(* C5 *)
+Lemma counter_quiescent_exact_lemma : forall (progs : list (list counter_op)) (sched : list Z),
+  let c := run_sched cM (init_config cM counter_init progs) sched in
+  all_done cM c = true ->
+  Permutation (map (@c_op cM) (hist c)) (concat progs) /\
+  Permutation (cas_amounts (hist c)) (flat_map ca (concat progs)) /\
+  valInt (sh c) = zsum (map ia (concat progs)) mod two64 /\
+  valBits (sh c) = sum_amounts (cas_amounts (hist c)) /\
+  fadd (valBits (sh c)) (of_Z (valInt (sh c))) =
+    fadd (sum_amounts (cas_amounts (hist c))) (of_Z (zsum (map ia (concat progs)) mod two64)).
+Proof.
+  intros progs sched c Hd.
+  pose proof (all_done_hist cM counter_init progs sched Hd) as HP. fold c in HP.
+  destruct (counter_state_invariant_lemma progs sched) as (HI & HB & _). fold c in HI, HB.
+  assert (HI' : valInt (sh c) = zsum (map ia (concat progs)) mod two64).
+  { pose proof (zsum_perm _ _ (Permutation_map ia HP)) as E. rewrite map_map in E.
+    rewrite HI, int_amounts_zsum. f_equal. exact E. }
+  repeat split; try assumption.
+  - rewrite cas_amounts_ca. apply Permutation_flat_map. assumption.
+  - rewrite HI', HB. reflexivity.
+Qed.
+
+(* ====================================================================== *)
+(* 8. gauge: quiescent value, completeness of the executable checker       *)
+(* ====================================================================== *)
+Definition ga (o : gauge_op) : list f64 := match gauge_amount o with Some a => [a] | None => [] end.
+Definition no_set (o : gauge_op) : Prop := match o with GSet _ => False | _ => True end.
+
+Lemma spec_run_no_set ops : Forall no_set ops -> forall s,
+  fst (spec_run gauge_spec_step s ops) = fold_left fadd (flat_map ga ops) s.
+Proof.
+  induction 1 as [|o r Ho HF IH]; intros s; [reflexivity|]. cbn [spec_run flat_map]. rewrite fold_left_app.
+  destruct (gauge_spec_step s o) as [s1 x] eqn:E. specialize (IH s1).
+  destruct (spec_run gauge_spec_step s1 r) as [s2 xs]. cbn [fst] in *. rewrite IH. f_equal.
+  destruct o; cbn [no_set] in Ho; try contradiction; unfold ga; cbn [gauge_spec_step gauge_amount] in *;
+    inversion E; subst; reflexivity.
+Qed.
+
+(* G3 (order-dependent form) *)
+Lemma gauge_quiescent_exact_partial_lemma : forall (progs : list (list gauge_op)) (sched : list Z),
+  let c := run_sched gM (init_config gM gauge_init progs) sched in
+  all_done gM c = true ->
+  Permutation (map (@c_op gM) (hist c)) (concat progs) /\
+  sh c = fst (spec_run gauge_spec_step gauge_init (map (@c_op gM) (hist c))) /\
+  (Forall no_set (concat progs) -> sh c = fold_left fadd (flat_map ga (map (@c_op gM) (hist c))) pzero).
+Proof.
+  intros progs sched c Hd.
+  pose proof (all_done_hist gM gauge_init progs sched Hd) as HP. fold c in HP.
+  destruct (gauge_linearizable_lemma progs sched) as (HR & _). fold c in HR.
+  split; [assumption|]. split; [rewrite HR; reflexivity|].
+  intros Hns. apply Permutation_sym in HP. pose proof (Permutation_Forall HP Hns) as Hns'.
+  change pzero with gauge_init. rewrite <- (spec_run_no_set _ Hns' gauge_init), HR. reflexivity.
+Qed.
+
+(* G2: the executable linearizability checker accepts every reachable history
+   (the completion order is a witness, found by always picking index 0) *)
+Lemma gauge_ret_eqb_refl r : gauge_ret_eqb r r = true.
+Proof. destruct r; [reflexivity|apply fbits_eq_refl]. Qed.
+
+Lemma lin_search_sorted : forall (h : list (call gM)) s,
+  StronglySorted res_lt h -> Forall (fun k : call gM => c_inv k < c_res k) h ->
+  snd (spec_run gauge_spec_step s (map (@c_op gM) h)) = map (@c_ret gM) h ->
+  @lin_search gM f64 gauge_spec_step gauge_ret_eqb (length h) s h = true.
+Proof.
+  induction h as [|k r IH]; intros s HS HL HR; [reflexivity|].
+  inversion HS as [|? ? HS' HF]; subst. inversion HL as [|? ? Hk HL']; subst.
+  cbn [length lin_search]. cbn [seq existsb nth_error]. apply orb_true_iff. left.
+  cbn [map spec_run] in HR. destruct (gauge_spec_step s (c_op k)) as [s1 x] eqn:E.
+  destruct (spec_run gauge_spec_step s1 (map (@c_op gM) r)) as [s2 xs] eqn:E2. cbn [snd] in HR.
+  inversion HR; subst x. apply andb_true_iff. split.
+  - unfold minimal. cbn [forallb]. apply andb_true_iff. split.
+    + apply orb_true_iff. left. apply negb_true_iff. lia.
+    + apply forallb_forall. intros d Hd. rewrite Forall_forall in HF. specialize (HF d Hd). unfold res_lt in HF.
+      apply orb_true_iff. left. apply negb_true_iff. lia.
+  - rewrite gauge_ret_eqb_refl. cbn [andb remove_nth]. apply IH; try assumption. rewrite E2. cbn [snd]. assumption.
+Qed.
+
+Lemma gauge_lin_check_complete_lemma : forall (progs : list (list gauge_op)) (sched : list Z),
+  let c := run_sched gM (init_config gM gauge_init progs) sched in
+  @lin_check gM f64 gauge_spec_step gauge_ret_eqb gauge_init (hist c) = true.
+Proof.
+  intros progs sched c. destruct (GInv_reachable progs sched) as (_ & _ & HR & HS & HL). fold c in HR, HS, HL.
+  unfold lin_check. apply lin_search_sorted; try assumption. unfold g_replay in HR. rewrite HR. reflexivity.
+Qed.
+
+(* ====================================================================== *)
+(* 9. observables used by the examples in Properties/C01.v                 *)
+(* ====================================================================== *)
+(* (bits of the shared value, time, [(tid, inv, res, result bits or -1 for no value)]) *)
+Definition gauge_summary (c : config gM) : Z * Z * list (Z * Z * Z * Z) :=
+  (to_bits (sh c), now c,
+   map (fun k : call gM => (c_tid k, c_inv k, c_res k,
+                            match c_ret k return Z with GUnit => -1 | GValue v => to_bits v end)) (hist c)).
+(* (bits of valBits, valInt, time, [(tid, inv, res, result bits / -1 unit / -2 panic)]) *)
+Definition counter_summary (c : config cM) : Z * Z * Z * list (Z * Z * Z * Z) :=
+  (to_bits (valBits (sh c)), valInt (sh c), now c,
+   map (fun k : call cM => (c_tid k, c_inv k, c_res k,
+                            match c_ret k return Z with CUnit => -1 | CPanic => -2 | CValue v => to_bits v end)) (hist c)).
